@@ -12,11 +12,13 @@
 # See the License for the specific language governing permissions and
 # limitations under the License.
 
+import copy
 import logging
 from functools import partial
 from collections.abc import Mapping
 from typing import Any, List, Optional, Sequence, Tuple, Type, Union
 
+import numpy as np
 import torch
 from opacus.utils.uniform_sampler import (
     DistributedUniformWithReplacementSampler,
@@ -31,27 +33,48 @@ logger = logging.getLogger(__name__)
 
 def empty_like_batch(batch: Any) -> Any:
     """
-    The batch of length zero that has the structure of ``batch``: tensors are cut to
-    zero length along the batch dimension, mappings and sequences are followed, a
-    sequence of per-sample strings becomes an empty list.
+    The batch of length zero that has the structure of ``batch``: tensors and numpy
+    arrays are cut to zero length along the batch dimension, mappings, sequences and
+    the attributes of batch objects are followed, a sequence holding one python value
+    per sample (strings, numbers) becomes empty.
 
     Args:
         batch: a collated batch
 
     Returns:
         Empty batch of the same structure, shapes and dtypes
+
+    Raises:
+        TypeError
+            If ``batch`` contains an object whose samples cannot be removed.
     """
-    if torch.is_tensor(batch):
+    if torch.is_tensor(batch) or isinstance(batch, np.ndarray):
         return batch[:0]
+    if batch is None or isinstance(batch, (str, bytes, int, float, bool, complex)):
+        return batch  # a value of the whole batch, not of its samples
     if isinstance(batch, Mapping):
-        return {key: empty_like_batch(value) for key, value in batch.items()}
+        items = {key: empty_like_batch(value) for key, value in batch.items()}
+        try:
+            return type(batch)(items)
+        except Exception:
+            return items
     if isinstance(batch, tuple) and hasattr(batch, "_fields"):  # namedtuple
         return type(batch)(*(empty_like_batch(value) for value in batch))
     if isinstance(batch, (list, tuple)):
-        if all(isinstance(value, (str, bytes)) for value in batch):
-            return type(batch)()
+        if all(
+            isinstance(value, (str, bytes, int, float, bool, complex))
+            for value in batch
+        ):
+            return type(batch)()  # one python value per sample
         return type(batch)(empty_like_batch(value) for value in batch)
-    return batch
+    if hasattr(batch, "__dict__"):  # a batch object (custom class, dataclass)
+        empty = copy.copy(batch)
+        for name, value in vars(batch).items():
+            setattr(empty, name, empty_like_batch(value))
+        return empty
+    raise TypeError(
+        f"Cannot build a batch of length zero from a collated batch of type {type(batch)}"
+    )
 
 
 def collate(
@@ -84,6 +107,8 @@ def collate(
 
     if len(batch) > 0:
         return collate_fn(batch)
+    elif isinstance(empty_batch, TypeError):
+        raise empty_batch  # the batch of length zero could not be built for this collate function
     elif empty_batch is not None:
         return empty_like_batch(empty_batch)
     else:
@@ -228,7 +253,10 @@ class DPDataLoader(DataLoader):
         # the empty batch has the structure, shapes and dtypes of a collated batch of
         # one sample: this also covers samples that are a single tensor, a mapping or
         # a nested structure, which cannot be described by a flat list of shapes
-        empty_batch = empty_like_batch(collate_fn([dataset[0]]))
+        try:
+            empty_batch = empty_like_batch(collate_fn([dataset[0]]))
+        except TypeError as e:
+            empty_batch = e  # raised if an empty batch is ever drawn
 
         if drop_last:
             logger.warning(
